@@ -49,14 +49,14 @@ type vfOp struct {
 	Meth    int    `json:"meth"`    // URR: measurement method octet (-1 = IE absent)
 	MInfo   int    `json:"minfo"`   // URR: measurement information octet (-1 = IE absent)
 	// used by the full-stack (L2) scripts; zero values give the L1 behaviour
-	AA     int   `json:"aa"`     // FAR: apply-action word (0: create -> FORW, update -> IE absent)
-	Teid   int   `json:"teid"`   // FAR: outer header creation TEID
-	Gnb    int   `json:"gnb"`    // FAR: outer header creation peer = simulated gNB i (0: no forwarding parameters)
-	Qers   []int `json:"qers"`   // PDR: QER ID children
-	Qfi    int   `json:"qfi"`    // QER: QFI (0: IE absent)
-	Perio  bool  `json:"perio"`  // URR: periodic reporting trigger
-	Period int   `json:"period"` // URR: measurement period in seconds
-	Sdf    string `json:"sdf"`   // PDR: flow description of an SDF filter in the PDI ("" = none)
+	AA     int    `json:"aa"`     // FAR: apply-action word (0: create -> FORW, update -> IE absent)
+	Teid   int    `json:"teid"`   // FAR: outer header creation TEID
+	Gnb    int    `json:"gnb"`    // FAR: outer header creation peer = simulated gNB i (0: no forwarding parameters)
+	Qers   []int  `json:"qers"`   // PDR: QER ID children
+	Qfi    int    `json:"qfi"`    // QER: QFI (0: IE absent)
+	Perio  bool   `json:"perio"`  // URR: periodic reporting trigger
+	Period int    `json:"period"` // URR: measurement period in seconds
+	Sdf    string `json:"sdf"`    // PDR: flow description of an SDF filter in the PDI ("" = none)
 }
 
 type vfRep struct {
@@ -108,10 +108,10 @@ type vfEvent struct {
 
 // vfMut is one structure-aware mutation of a valid PFCP message
 type vfMut struct {
-	Op  string `json:"op"`  // trunc hdrlen iel iet drop dup byte seid mt ver ieb rand none
-	K   int    `json:"k"`   // index of the IE (pre-order, nested IEs included) / byte offset / length
-	V   int    `json:"v"`   // value
-	S   string `json:"s"`   // seid: decimal 64-bit value
+	Op string `json:"op"` // trunc hdrlen iel iet drop dup byte seid mt ver ieb rand none
+	K  int    `json:"k"`  // index of the IE (pre-order, nested IEs included) / byte offset / length
+	V  int    `json:"v"`  // value
+	S  string `json:"s"`  // seid: decimal 64-bit value
 }
 
 type vfScript struct {
@@ -1398,7 +1398,9 @@ func TestVerifL1(t *testing.T) {
 	x.gate.cond = sync.NewCond(&x.gate.mu)
 	VerifIdle = x.gate.idle
 	logger.Log.AddHook(vfFatalHook{x})
-	logger.Log.ExitFunc = func(code int) { x.noteFatal(fmt.Sprintf("exit(%d) via logger (recovered panic in the event loop)", code)) }
+	logger.Log.ExitFunc = func(code int) {
+		x.noteFatal(fmt.Sprintf("exit(%d) via logger (recovered panic in the event loop)", code))
+	}
 
 	fi, err := os.Open(in)
 	if err != nil {
